@@ -47,17 +47,18 @@ Fixpoint radix_value (R : N) (s : list N) (acc : N) : option N :=
       else None
   end.
 
+(* the first code points of s are p *)
+Definition has_prefix (p s : list N) : bool := list_eqb (firstn (length p) s) p.
+
 Definition ipv4_number (input : list N) : option N :=
   match input with
   | [] => None                                                      (* 1 *)
   | _ =>
       let '(input, R) :=                                            (* 3 - 5 *)
-        match input with
-        | 48 :: 88 :: rest => (rest, 16)
-        | 48 :: 120 :: rest => (rest, 16)
-        | 48 :: c :: rest => (c :: rest, 8)
-        | _ => (input, 10)
-        end in
+        if (2 <=? length input)%nat && (has_prefix [48; 88] input || has_prefix [48; 120] input)
+        then (skipn 2 input, 16)
+        else if (2 <=? length input)%nat && has_prefix [48] input then (skipn 1 input, 8)
+        else (input, 10) in
       match input with
       | [] => Some 0                                                (* 6 *)
       | _ => radix_value R input 0                                  (* 7 - 9 *)
